@@ -132,7 +132,7 @@ PROPS = {
         "assumptions": ["regtest only for the end-to-end stream (proof of work must be mined); mainnet/testnet header rules are covered by C11's stream"],
     },
     "C13": {
-        "extra_props": ["C13Live", "FullSys", "FullSysExample", "C13Full"],
+        "extra_props": ["C13Live", "FullSys", "FullSysExample", "C13Full", "C13Lift", "C13LiftExample"],
         "model_spec_ops": ["c hb", "c reply"],
         "spec_ops": [],
         "streams": [{"name": "sync", "quick": 160, "thorough": 3200}],
@@ -203,7 +203,7 @@ PROPS = {
         "assumptions": ["the check is on normalised txids (compute_ntxid): stricter than 'no shared txid'"],
     },
     "C15": {
-        "extra_props": ["C15Spec"],
+        "extra_props": ["C15Spec", "C15Full", "C15FullExample", "C15FullCollision"],
         "model_spec_ops": ["c q fees"],
         "spec_ops": ["c q feesn"],
         "streams": [{"name": "ledger", "quick": 160, "thorough": 1600}, {"name": "sync", "quick": 80, "thorough": 800}],
